@@ -59,6 +59,12 @@ def conventional_plus(r, idx):
     tg.field("origin", 4, lkr.fqn).map_field("weights", 5, "string", "int32")
     svc.rpc("TagThing", tg.fqn, lkr.fqn, http=("post", "/v1/{name=things/*}:tag"), body="*", sigs=["name,labels,tags", "name,origin,weights"])
     feats.append("flattened-map-and-repeated")
+    # two path variables nested under the SAME request sub-message (plus a third level)
+    pos = main.message("ThingPosition"); pos.field("shelf", 1, "string").field("thing_id", 2, "string").field("slot", 3, "int32")
+    mv = main.message("MoveThingAroundRequest"); mv.field("position", 1, pos.fqn).field("note", 2, "string")
+    svc.rpc("MoveThingAround", mv.fqn, lkr.fqn, http=("post", "/v1/{position.shelf=shelves/*}/things/{position.thing_id}:moveAround"), body="*",
+            sigs=["position"])
+    feats.append("two-path-variables-one-parent")
     if idx % 2 == 1:
         # the service declares google.api.api_version: every call also carries the x-goog-api-version header
         from google.api import client_pb2
@@ -370,8 +376,17 @@ Fixpoint render_mval (v : mval) : string :=
 """
 
 
+def _stage(ctx, name, fn, *a):
+    """A stage that cannot run (model/implementation tie crashed) is a broken obligation, not the end of the check."""
+    import traceback
+    try:
+        fn(*a)
+    except Exception:  # noqa
+        ctx.oblige(f"stage '{name}' ran to completion", False, traceback.format_exc()[-1500:], "T2")
+
+
 def run(ctx):
-    run_pure(ctx)
+    _stage(ctx, "pure T2", run_pure, ctx)
     sample_reqs = []
     for i in range(ctx.n(8, 40)):
         try:
@@ -379,8 +394,8 @@ def run(ctx):
             sample_reqs.append(api.request("", extra_files=deps))
         except apigen.Invalid:
             pass
-    run_sample_request(ctx, sample_reqs)
-    run_mock(ctx, sample_reqs[:ctx.n(4, 20)])
+    _stage(ctx, "sample_request T2", run_sample_request, ctx, sample_reqs)
+    _stage(ctx, "mock T2", run_mock, ctx, sample_reqs[:ctx.n(4, 20)])
     jobs = []
     for i in range(ctx.n(2, 40)):
         r = env.rng("C13-api", i)
